@@ -98,6 +98,12 @@ def run(ctx):
     d = tempfile.mkdtemp(prefix="verif-c12-")
     try:
         for name, obj in objs:
+            # a dump of the same object wrapped together with something unsupported fails half way (after its arrays were
+            # written); the dumps that follow must not be affected by it
+            try:
+                dumps([obj, {"k": (obj, memoryview(b"unsupported"))}])
+            except Exception:
+                pass
             try:
                 base = dumps(obj)
             except Exception:
@@ -105,9 +111,15 @@ def run(ctx):
             distinct.add(name)
             for f in wellformed(base):
                 ofails.append((f, dict(kind="object", object=name, repr=repr(obj)[:800], sink="dumps", method="STORED")))
-            nbase, _ = valuecheck.normalise_schema(valuecheck.archive_parts(base)[0])
-            mbase = normalised_members(base)
-            base_obj = loads(base, trusted=get_untrusted_types(data=base))
+            try:
+                nbase, _ = valuecheck.normalise_schema(valuecheck.archive_parts(base)[0])
+                mbase = normalised_members(base)
+                base_obj = loads(base, trusted=get_untrusted_types(data=base))
+            except Exception as ex:
+                ofails.append((f"sink-unloadable: the archive returned by dumps() (after an earlier dump of the same object had failed half way) "
+                               f"cannot be read back ({type(ex).__name__}: {str(ex)[:100]})",
+                               dict(kind="object", object=name, repr=repr(obj)[:800], sink="dumps", method="STORED")))
+                continue
             full = name in [n for n, _ in zoo()] or evaluations % 7 == 0
             methods = METHODS if full else [ctx.rng.choice(METHODS)]
             for method, level in methods:
